@@ -1,3 +1,8 @@
 -- Root of the `SqlglotModel` library: every property file (and through them every model and proof file).
+import SqlglotModel.Properties.C04
+import SqlglotModel.Properties.C06
+import SqlglotModel.Properties.C11
+import SqlglotModel.Properties.C12
 import SqlglotModel.Properties.C13
 import SqlglotModel.Properties.C18
+import SqlglotModel.Properties.C20
